@@ -42,6 +42,20 @@ type Spec struct {
 	// InputIndependence additionally demands that a decoded object does not keep referring to the
 	// caller's input buffer (off by default: zero-copy decoding is not forbidden by most properties).
 	InputIndependence bool
+	// BadInputs are byte strings the decoder is expected to refuse (truncated, inconsistent). Decoding one
+	// leaves the object in a state the oracle does not know (ghost = unknown) — but see Mutators.
+	BadInputs []Bad
+	// Mutators change the object through its public surface starting from WHATEVER it holds (Add, Append …).
+	// Their result is not predicted; what is demanded is that the object encodes SELF-CONSISTENTLY
+	// afterwards (Consistent returns "" for an encoding whose counts/lengths describe exactly the bytes
+	// emitted), even when an earlier decode on the same object failed half-way.
+	Mutators   []Value
+	Consistent func(enc []byte) string
+}
+
+type Bad struct {
+	Name  string
+	Bytes []byte
 }
 
 type Stats struct{ States, Transitions int }
@@ -70,7 +84,8 @@ func Run(c *vf.Ctx, s Spec) Stats {
 		}
 		encs[k] = append([]byte(nil), encs[k]...)
 	}
-	nops := 2*K + 1 + len(s.ExtraOps)
+	E := len(s.ExtraOps)
+	nops := 2*K + 1 + E + len(s.BadInputs) + len(s.Mutators)
 	opName := func(op int) string {
 		switch {
 		case op < K:
@@ -79,8 +94,12 @@ func Run(c *vf.Ctx, s Spec) Stats {
 			return "Decode(enc(" + s.Values[op-K].Name + "))"
 		case op == 2*K:
 			return "Encode"
-		default:
+		case op < 2*K+1+E:
 			return s.ExtraOps[op-2*K-1].Name
+		case op < 2*K+1+E+len(s.BadInputs):
+			return "Decode(" + s.BadInputs[op-2*K-1-E].Name + ")"
+		default:
+			return s.Mutators[op-2*K-1-E-len(s.BadInputs)].Name
 		}
 	}
 	hist := func(path []int, op int) string {
@@ -147,9 +166,24 @@ func Run(c *vf.Ctx, s Spec) Stats {
 				})
 			}
 			return ghost
-		default:
+		case op < 2*K+1+E:
 			s.ExtraOps[op-2*K-1].Set(o)
 			return ghost
+		case op < 2*K+1+E+len(s.BadInputs):
+			s.Decode(o, append([]byte(nil), s.BadInputs[op-2*K-1-E].Bytes...))
+			return -1
+		default:
+			m := s.Mutators[op-2*K-1-E-len(s.BadInputs)]
+			m.Set(o)
+			if check && s.Consistent != nil {
+				if b, err := s.Encode(o); err == nil {
+					problem := s.Consistent(b)
+					c.Check(s.Prefix+"/encoding-self-consistent-after-mutator", problem == "", func() string {
+						return fmt.Sprintf("history %s then Encode = %x: %s", hist(path, op), b, problem)
+					})
+				}
+			}
+			return -1
 		}
 	}
 	build := func(path []int) (any, int) {
